@@ -326,6 +326,8 @@ func cmdCheck(args []string) {
 				bad = eng.scanFanout()
 			case "nomapupdate":
 				bad = eng.scanMapUpdates(rule.ForbidFns)
+			case "anylist":
+				bad = eng.scanAnyLists(rule.Allow)
 			default:
 				bad = eng.scanCalls(rule)
 			}
